@@ -8,6 +8,7 @@ import (
 
 	"verif/checker/core"
 	"verif/checker/rules"
+	"verif/checker/tmpl"
 )
 
 func init() { register("C18", c18) }
@@ -35,6 +36,9 @@ func c18(c *core.Check) {
 	agg := newAggregate()
 	runUnits(c, st, units, func(r *rendered) {
 		k := r.U.key()
+		if _, gf := r.R.Err.(*tmpl.GenFailure); gf {
+			return // the generator itself refuses this input: no generated code to judge
+		}
 		if r.R.Err != nil || r.ParseErr != nil {
 			agg.check("renders", k)
 			agg.fail("renders", k, fmt.Sprintf("under [%s]: %v %v", r.R.Valuation, r.R.Err, r.ParseErr))
